@@ -93,22 +93,23 @@ def increment_blocks(fn):
     return out
 
 
-def check_increment_idiom(run, rule, fn, param="round_up"):
-    inc = increment_blocks(fn)
-    inst = fn.path
+def check_increment_idiom(run, rule, fn, param="round_up", up=True, inc=None, tag=""):
+    """`up` is the value of `param` under which the function rounds up (False for an inverted flag)."""
+    inc = increment_blocks(fn) if inc is None else inc
+    inst = tag + fn.path
     if not inc:
         run.missing(rule, "incr@" + inst, "no `+ 1` increment site found in %s" % fn.path, loc=fn.loc())
         return
-    fl_f = preach.flow(fn, {param: False})
-    fl_t = preach.flow(fn, {param: True})
+    fl_f = preach.flow(fn, {param: (not up)})
+    fl_t = preach.flow(fn, {param: up})
     reach_f = fl_f.reachable() & inc
     reach_t = fl_t.reachable() & inc
     run.check(rule, "no-incr-when-down@" + inst, not reach_f,
-              "%s can add one although %s == false (rounds up when asked to round down)" % (fn.path, param), loc=fn.loc(),
-              detail="increment blocks %s unreachable when %s=false" % (sorted(inc), param))
+              "%s can add one although %s == %s (rounds up when asked to round down)" % (fn.path, param, str(not up).lower()), loc=fn.loc(),
+              detail="increment blocks %s unreachable when %s=%s" % (sorted(inc), param, str(not up).lower()))
     run.check(rule, "incr-when-up@" + inst, bool(reach_t),
-              "%s never adds one when %s == true (does not round up)" % (fn.path, param), loc=fn.loc(),
-              detail="increment reachable when %s=true" % param)
+              "%s never adds one when %s == %s (does not round up)" % (fn.path, param, str(up).lower()), loc=fn.loc(),
+              detail="increment reachable when %s=%s" % (param, str(up).lower()))
     # and a path to a successful return without the increment exists (exact division is not bumped):
     ok = False
     if reach_t:
@@ -128,8 +129,8 @@ def check_increment_idiom(run, rule, fn, param="round_up"):
                 if (b, s) in fl_t.edge_feasible:
                     work.append(s)
     run.check(rule, "incr-conditional@" + inst, ok,
-              "%s adds one unconditionally when %s == true (no remainder test: exact results would be off by one)" % (fn.path, param), loc=fn.loc(),
-              detail="a non-incrementing return path exists when %s=true (remainder == 0)" % param)
+              "%s adds one unconditionally when %s == %s (no remainder test: exact results would be off by one)" % (fn.path, param, str(up).lower()), loc=fn.loc(),
+              detail="a non-incrementing return path exists when %s=%s (remainder == 0)" % (param, str(up).lower()))
 
 
 def R2_rounding_primitives(run):
